@@ -5,8 +5,10 @@
                               every required field was decoded -- for EVERY number of required
                               fields (more than 64: the equality never holds)
    msg_fast_flag_sound        flag set -> the decoded message is initialized, for schemas satisfying
-                              msg_init_wf (which excludes, as a restriction of this proof, maps whose
-                              value type needs an init check: finding FA5 lives there)
+                              msg_init_wf; maps are covered when the value type needs no init check or
+                              is a leaf type (all fields of scalar kind, e.g. map<int32, TestRequired>:
+                              msg_entry_sync, using that decoding never removes a required field,
+                              msg_dm_keeps); finding FA5 lives in map values with sub-messages
    msg_unmarshal_exact, msg_unmarshal_slow_exact, msg_marshal_exact, msg_allow_partial_*
    msg_fast_flag_sound_refuted_FA5, msg_unmarshal_lazy_exact_refuted_FA1   witnesses;
    msg_flag_oneof_member_FA2_repaired   the witness of the repaired finding FA2 now clears the flag *)
@@ -364,15 +366,21 @@ Proof. destruct es as [|[s|fs u|k0 v0] r]; cbn [msg_map_put]; try discriminate. 
 (* ---------- well-formedness of the schema for the flag theorem ---------- *)
 Record msg_md_wf (ni : nat -> bool) (md : mdesc) : Prop := {
   wf_uniq : msg_nums_unique md;
-  wf_req : forall fd, In fd md -> msg_is_req fd = true -> f_ext fd = false /\ f_oneof fd = None;
-  (* restriction [maps]: map values do not need an init check *)
-  wf_map : forall fd kk ku vd t, In fd md -> f_card fd = CMap kk ku vd ->
-                                 (f_kind fd = KMsg t \/ f_kind fd = KGrp t) -> ni t = false
+  wf_req : forall fd, In fd md -> msg_is_req fd = true -> f_ext fd = false /\ f_oneof fd = None
 }.
+(* a message type all of whose fields are of scalar kind (scalars, lists and maps of scalars) *)
+Definition msg_leaf (md : mdesc) : bool :=
+  forallb (fun fd => match f_kind fd with KS _ => true | _ => false end) md.
+(* restriction [maps]: the value type of a map either needs no init check, or is a leaf type
+   (e.g. map<int32, TestRequired>); finding FA5 lives in map values with sub-messages *)
+Definition msg_maps_wf (S : schema) (ni : nat -> bool) : Prop :=
+  forall tid md fd kk ku vd t, nth_error S tid = Some md -> In fd md -> f_card fd = CMap kk ku vd ->
+    (f_kind fd = KMsg t \/ f_kind fd = KGrp t) ->
+    ni t = false \/ (f_kind fd = KMsg t /\ msg_leaf (nth t S []) = true).
 Definition msg_ni_sound (S : schema) (ni : nat -> bool) : Prop :=
   forall tid v, ni tid = false -> msg_check_init S tid v = true.
 Definition msg_init_wf (S : schema) (ni : nat -> bool) : Prop :=
-  (forall tid md, nth_error S tid = Some md -> msg_md_wf ni md) /\ msg_ni_sound S ni.
+  (forall tid md, nth_error S tid = Some md -> msg_md_wf ni md) /\ msg_ni_sound S ni /\ msg_maps_wf S ni.
 
 (* ---------- invariants ---------- *)
 Definition msg_elems_ok (S : schema) (md : mdesc) (p : N * list value) : Prop :=
@@ -581,7 +589,13 @@ Section Flag.
   Section Step.
     Variables (d : nat) (md : mdesc).
     Hypothesis Hmdwf : msg_md_wf ni md.
+    Variable tidfix : nat.
+    Hypothesis Hmdfix : nth_error S tidfix = Some md.
     Hypothesis IHd : msg_flag_stmt d.
+    (* one level further down (values of map entries) *)
+    Hypothesis IHd1 : forall d1, d = Datatypes.S d1 -> msg_flag_stmt d1.
+    Hypothesis Hkeeps1 : forall d1 t mdt, d = Datatypes.S d1 -> nth_error S t = Some mdt -> msg_md_wf ni mdt ->
+      forall grp g bs acc acc' rest, dm d1 t grp g bs acc = DOk (acc', rest) -> msg_keeps mdt (fst acc) (fst acc').
 
     (* storing an initialized sub-message *)
     Lemma msg_inv_store_sub fd t m fs st f :
@@ -842,6 +856,137 @@ Section Flag.
       Qed.
     End NonMap.
 
+    (* ---------- presence of required fields survives every step of the decoder ---------- *)
+    Lemma msg_keeps_refl fs : msg_keeps md fs fs.
+    Proof. intros h fdh _ _ H. exact H. Qed.
+    Lemma msg_store_sub_keeps fd m fs :
+      msg_find_field md (f_num fd) = Some fd -> msg_keeps md fs (msg_store_sub md fd m fs).
+    Proof.
+      intros Hf. unfold msg_store_sub. destruct (card_repeated (f_card fd));
+        [apply msg_append_field_keeps|apply (msg_set_field_keeps ni md Hmdwf); exact Hf].
+    Qed.
+    Lemma msg_unknown_keeps tagraw num typ r acc acc' r' :
+      msg_unknown tagraw num typ r acc = DOk (acc', r') -> msg_keeps md (fst acc) (fst acc').
+    Proof.
+      unfold msg_unknown. destruct (parse_val default_dep num typ r) as [[w rr]|e]; [|discriminate].
+      intros H. inversion H; subst. cbn [fst]. apply msg_keeps_refl.
+    Qed.
+    Lemma msg_step_keeps tagraw num typ r acc acc' r' :
+      msg_step false md (dm d) (msg_dsub2 false S d) tagraw num typ r acc = DOk (acc', r') ->
+      msg_keeps md (fst acc) (fst acc').
+    Proof.
+      intros Hdm.
+      destruct (msg_find_field md num) as [fd|] eqn:Hf.
+      2:{ unfold msg_step in Hdm. rewrite Hf in Hdm. exact (msg_unknown_keeps _ _ _ _ _ _ _ Hdm). }
+      pose proof (msg_find_field_num _ _ _ Hf) as Hnum.
+      assert (Hfd : msg_find_field md (f_num fd) = Some fd) by (rewrite Hnum; exact Hf).
+      destruct (f_card fd) as [| | | | |kk ku vd] eqn:Hc.
+      6:{ unfold msg_step in Hdm. rewrite Hf, Hc in Hdm.
+          destruct (msg_dsub2 false S d); [|discriminate].
+          destruct (typ =? 2); [|exact (msg_unknown_keeps _ _ _ _ _ _ _ Hdm)].
+          destruct (dec_bytes r) as [[payload rr]|e]; [|discriminate].
+          match type of Hdm with context [msg_dec_entry ?p1 ?p2 ?p3 ?p4 ?p5 ?p6 ?p7 ?p8 ?p9] =>
+            destruct (msg_dec_entry p1 p2 p3 p4 p5 p6 p7 p8 p9) as [[key v]|e0]; [|discriminate] end.
+          inversion Hdm; subst acc' r'. cbn [fst].
+          intros h fdh Hfh Hr Hp. destruct (N.eq_dec h num) as [->|Hne].
+          - apply msg_present_fset_same. apply msg_map_put_nonempty.
+          - rewrite msg_present_fset_other by exact Hne. exact Hp. }
+      all: assert (Hnm : forall kk ku vd, f_card fd <> CMap kk ku vd) by (intros; rewrite Hc; discriminate).
+      all: rewrite (msg_step_nm_eq _ _ _ _ _ fd Hf Hnm) in Hdm; clear Hc; unfold msg_step_nm in Hdm.
+      all: destruct (f_kind fd) as [sk|t|t].
+      all: try (destruct (typ =? sk_wt sk);
+                [ destruct (parse_val 0 num typ r) as [[w rr]|e]; [|discriminate];
+                  destruct (msg_dec_scalar sk (msg_field_utf8 false fd) w) as [[s|e]|];
+                  [ inversion Hdm; subst; cbn [fst]; destruct (card_repeated (f_card fd));
+                    [exact (msg_append_field_keeps md fd [VS s] (fst acc))|apply (msg_set_field_keeps ni md Hmdwf); exact Hfd]
+                  | discriminate | exact (msg_unknown_keeps _ _ _ _ _ _ _ Hdm) ]
+                | destruct ((typ =? 2) && msg_packable sk && card_repeated (f_card fd));
+                  [|exact (msg_unknown_keeps _ _ _ _ _ _ _ Hdm)];
+                  destruct (dec_bytes r) as [[payload rr]|e]; [|discriminate];
+                  destruct (msg_dec_packed (x00 :: payload) sk payload []) as [vs|e]; [|discriminate];
+                  inversion Hdm; subst; cbn [fst]; exact (msg_append_field_keeps md fd vs (fst acc)) ]).
+      all: try (destruct (typ =? 2); [|exact (msg_unknown_keeps _ _ _ _ _ _ _ Hdm)];
+                destruct (dec_bytes r) as [[payload rr]|e]; [|discriminate];
+                match type of Hdm with context [msg_whole ?q1 ?q2 ?q3 ?q4] =>
+                  destruct (msg_whole q1 q2 q3 q4) as [m|e]; [|discriminate] end;
+                inversion Hdm; subst; cbn [fst]; apply msg_store_sub_keeps; exact Hfd).
+      all: destruct (typ =? 3); [|exact (msg_unknown_keeps _ _ _ _ _ _ _ Hdm)];
+           match type of Hdm with context [msg_decode_msg ?q1 ?q2 ?q3 ?q4 ?q5 ?q6 ?q7 ?q8] =>
+             destruct (msg_decode_msg q1 q2 q3 q4 q5 q6 q7 q8) as [[m rr]|e]; [|discriminate] end;
+           inversion Hdm; subst; cbn [fst]; apply msg_store_sub_keeps; exact Hfd.
+    Qed.
+
+    (* ---------- map entries whose value type is a leaf type ---------- *)
+    Lemma msg_leaf_check t fs u :
+      msg_leaf (nth t S []) = true ->
+      msg_check_init S t (VMsg fs u) = msg_required_present (nth t S []) fs.
+    Proof.
+      intros Hl. cbn [msg_check_init].
+      assert (E : forallb (fun p => msg_check_chunk (msg_check_init S) (nth t S []) p) fs = true).
+      { apply forallb_forall. intros p _. unfold msg_check_chunk.
+        destruct (msg_find_field (nth t S []) (fst p)) as [fd|] eqn:Hf; [|reflexivity].
+        unfold msg_leaf in Hl. rewrite forallb_forall in Hl. specialize (Hl fd (msg_find_field_in _ _ _ Hf)).
+        destruct (f_kind fd); [reflexivity|discriminate|discriminate]. }
+      rewrite E. apply andb_true_r.
+    Qed.
+
+    Definition msg_reqp (t : nat) (v : value) : Prop :=
+      msg_required_present (nth t S []) (fst (msg_macc_of v)) = true.
+
+    Lemma msg_entry_sync d1 t mdt kk ku vu :
+      d = Datatypes.S d1 -> nth_error S t = Some mdt -> msg_leaf mdt = true ->
+      forall g g2 bs key0 val0 key v seen,
+        msg_dec_entry g kk ku (KMsg t) vu
+          (fun p (x : value) => match msg_whole (dm d1) t p (msg_macc_of x) with
+                                | DOk m => DOk (VMsg (fst m) (snd m)) | DErr e => DErr e end)
+          bs key0 val0 = DOk (key, v) ->
+        msg_ientry g2 (msg_iwhole (im d1) t) bs seen = DOk true ->
+        (seen = true -> msg_reqp t val0) -> msg_reqp t v.
+    Proof.
+      intros Hd Hmdt Hleaf.
+      pose proof (msg_nth_error_nth S t mdt Hmdt) as Hnth.
+      pose proof (proj1 Hwf _ _ Hmdt) as Hwft.
+      induction g as [|x g IH]; intros g2 bs key0 val0 key v seen Hdm Him Hseen; [discriminate|].
+      destruct g2 as [|x2 g2]; [discriminate|].
+      cbn [msg_dec_entry] in Hdm. cbn [msg_ientry] in Him.
+      destruct bs as [|b0 bs0].
+      - inversion Hdm; subst key v. inversion Him; subst seen. exact (Hseen eq_refl).
+      - destruct (dec_tag (b0 :: bs0)) as [[[num typ] r]|e]; [|discriminate].
+        destruct (msg_max_num <? num); [discriminate|].
+        destruct (parse_val default_dep num typ r) as [[w r']|e]; [|discriminate].
+        destruct (N.eqb_spec num 1) as [->|Hn1].
+        + cbn [N.eqb Pos.eqb] in Him.
+          destruct (msg_dec_scalar kk ku w) as [[s|e]|]; [|discriminate|];
+            exact (IH _ _ _ _ _ _ _ Hdm Him Hseen).
+        + destruct (num =? 2).
+          * destruct w as [?|?|?|payload|?]; try exact (IH _ _ _ _ _ _ _ Hdm Him Hseen).
+            destruct (msg_whole (dm d1) t payload (msg_macc_of val0)) as [m|e] eqn:Hw; [|discriminate].
+            destruct (msg_iwhole (im d1) t payload) as [f1|e] eqn:Hiw; [|discriminate].
+            apply (IH _ _ _ _ _ _ _ Hdm Him). intros Hs.
+            unfold msg_whole in Hw. unfold msg_iwhole in Hiw.
+            destruct (dm d1 t 0 (x00 :: payload) payload (msg_macc_of val0)) as [[m' rest1]|e] eqn:E1; [|discriminate].
+            destruct (im d1 t 0 (x00 :: payload) payload) as [[f' rest2]|e] eqn:E2; [|discriminate].
+            inversion Hw; subst m'. inversion Hiw; subst f'.
+            unfold msg_reqp. cbn [msg_macc_of fst]. rewrite Hnth.
+            apply orb_true_iff in Hs. destruct Hs as [Hs|Hs].
+            -- (* already seen an initialized occurrence: required fields stay present *)
+               specialize (Hseen Hs). unfold msg_reqp in Hseen. rewrite Hnth in Hseen.
+               pose proof (Hkeeps1 d1 t mdt Hd Hmdt Hwft 0 _ _ _ _ _ E1) as Hk.
+               unfold msg_required_present in *. rewrite forallb_forall in *. intros fd Hin.
+               specialize (Hseen fd Hin). destruct (msg_is_req fd) eqn:Hr; [|reflexivity]. cbn [negb orb] in *.
+               exact (Hk (f_num fd) fd (wf_uniq ni mdt Hwft fd Hin) Hr Hseen).
+            -- (* this occurrence is initialized *)
+               subst f1.
+               pose proof (proj2 (IHd1 d1 Hd _ _ _ _ _ _ _ _ _ _ E1 E2) eq_refl) as Hc.
+               rewrite Hnth in Hc.
+               assert (Hsubs : msg_subs_ok S mdt (fst (msg_macc_of val0))).
+               { intros p _ fd' t' Hf' Hk'. exfalso. unfold msg_leaf in Hleaf. rewrite forallb_forall in Hleaf.
+                 specialize (Hleaf fd' (msg_find_field_in _ _ _ Hf')). destruct Hk' as [Hk'|Hk']; rewrite Hk' in Hleaf; discriminate. }
+               specialize (Hc Hsubs). rewrite (msg_leaf_check t (fst m) (snd m)) in Hc by (rewrite Hnth; exact Hleaf).
+               rewrite Hnth in Hc. exact Hc.
+          * exact (IH _ _ _ _ _ _ _ Hdm Him Hseen).
+    Qed.
+
     Lemma msg_step_sync tagraw num typ r acc acc' r' st st' r2 :
       msg_step false md (dm d) (msg_dsub2 false S d) tagraw num typ r acc = DOk (acc', r') ->
       msg_istep ni md (im d) (msg_isub2 d) num typ r st = DOk (st', r2) ->
@@ -856,32 +1001,55 @@ Section Flag.
       destruct (f_card fd) as [| | | | |kk ku vd] eqn:Hc.
       6:{ (* map *)
         unfold msg_step in Hdm. unfold msg_istep in Him. rewrite Hf, Hc in Hdm, Him.
-        destruct d as [|d1]; cbn [msg_dsub2 msg_isub2] in Hdm, Him; [discriminate|].
-        destruct (typ =? 2); [|exact (msg_unknown_sync _ _ _ _ _ _ _ _ _ _ Hdm Him)].
+        assert (Hdcase : d = O \/ exists d1, d = Datatypes.S d1) by (destruct d; [left; reflexivity|right; eexists; reflexivity]).
+        destruct Hdcase as [Hd0|(d1 & Hd1)]; [rewrite Hd0 in Hdm; cbn [msg_dsub2] in Hdm; discriminate|].
+        rewrite Hd1 in Hdm, Him. cbn [msg_dsub2 msg_isub2] in Hdm, Him.
+        destruct (typ =? 2).
+        2:{ exact (msg_unknown_sync _ _ _ _ _ _ _ _ _ _ Hdm Him). }
         destruct (dec_bytes r) as [[payload rr]|e]; [|discriminate].
-        match type of Hdm with context [msg_dec_entry ?a ?b ?c ?dd ?e ?f ?g ?h ?i] =>
-          destruct (msg_dec_entry a b c dd e f g h i) as [[key v]|e0]; [|discriminate] end.
+        match type of Hdm with context [msg_dec_entry ?p1 ?p2 ?p3 ?p4 ?p5 ?p6 ?p7 ?p8 ?p9] =>
+          destruct (msg_dec_entry p1 p2 p3 p4 p5 p6 p7 p8 p9) as [[key v]|e0] eqn:Hent; [|discriminate] end.
         inversion Hdm; subst acc' r'. cbn [fst].
-        assert (Hres : exists b, st' = (fst st, snd st && b) /\ r2 = rr).
-        { destruct (f_kind fd) as [sk|t|t].
-          - inversion Him; subst st' r2. exists true. rewrite andb_true_r. destruct st; split; reflexivity.
-          - destruct (msg_ientry (x00 :: payload) (msg_iwhole (im d1) t) payload false) as [f|e0]; [|discriminate].
-            inversion Him; subst st' r2. eexists. split; reflexivity.
-          - inversion Him; subst st' r2. exists true. rewrite andb_true_r. destruct st; split; reflexivity. }
-        destruct Hres as (b & -> & ->). split; [reflexivity|].
+        destruct (msg_find_in_self md fd _ Hfd) as [Hinfd _].
+        assert (Hres : exists b, st' = (fst st, snd st && b) /\ r2 = rr /\
+                  (b = true -> forall t, (f_kind fd = KMsg t \/ f_kind fd = KGrp t) -> msg_check_init S t v = true)).
+        { destruct (f_kind fd) as [sk|t0|t0] eqn:Hk.
+          - inversion Him; subst st' r2. exists true. rewrite andb_true_r. split; [destruct st; reflexivity|].
+            split; [reflexivity|]. intros _ t [Hk'|Hk']; discriminate.
+          - destruct (msg_ientry (x00 :: payload) (msg_iwhole (im d1) t0) payload false) as [f|e0] eqn:Hie; [|discriminate].
+            inversion Him; subst st' r2. eexists. split; [reflexivity|]. split; [reflexivity|].
+            intros Hb t Hk'. assert (t = t0) as -> by (destruct Hk' as [Hk'|Hk']; congruence).
+            destruct (ni t0) eqn:Hni; [|exact (proj1 (proj2 Hwf) t0 v Hni)].
+            cbn [negb] in Hb. rewrite orb_false_r in Hb. subst f.
+            destruct (nth_error S t0) as [mdt|] eqn:Hmdt.
+            2:{ (* no such type: every value is initialized *)
+                destruct v as [s|fs u|k0 v0]; try reflexivity. cbn [msg_check_init].
+                rewrite (nth_overflow S []) by (apply nth_error_None; exact Hmdt). cbn [msg_required_present forallb].
+                apply forallb_forall. intros p _. reflexivity. }
+            destruct (proj2 (proj2 Hwf) _ md fd kk ku vd t0 Hmdfix Hinfd Hc (or_introl Hk)) as [Hn|[_ Hleaf]]; [congruence|].
+            rewrite (msg_nth_error_nth S t0 mdt Hmdt) in Hleaf.
+            pose proof (msg_entry_sync d1 t0 mdt kk ku (f_utf8 fd) Hd1 Hmdt Hleaf
+                          (x00 :: payload) (x00 :: payload) payload (sk_zero kk) (msg_entry_default (KMsg t0) vd) key v false
+                          Hent Hie (fun H => match Bool.diff_false_true H with end)) as Hrp.
+            destruct v as [s|fs u|k0 v0]; try reflexivity.
+            rewrite (msg_leaf_check t0 fs u) by (rewrite (msg_nth_error_nth S t0 mdt Hmdt); exact Hleaf). exact Hrp.
+          - inversion Him; subst st' r2. exists true. rewrite andb_true_r. split; [destruct st; reflexivity|].
+            split; [reflexivity|]. intros _ t Hk'. assert (t = t0) as -> by (destruct Hk' as [Hk'|Hk']; congruence).
+            destruct (proj2 (proj2 Hwf) _ md fd kk ku vd t0 Hmdfix Hinfd Hc (or_intror Hk)) as [Hn|[Hbad _]]; [|rewrite Hk in Hbad; discriminate].
+            exact (proj1 (proj2 Hwf) t0 v Hn). }
+        destruct Hres as (b & -> & -> & Hchk). split; [reflexivity|].
         intros [Hmask Hsub]. cbn [fst snd]. split.
         - apply (msg_mask_ok_keeps md (fst acc)); [|exact Hmask].
           intros h fdh Hfh Hr Hp. destruct (N.eq_dec h num) as [->|Hne].
           + apply msg_present_fset_same. apply msg_map_put_nonempty.
           + rewrite msg_present_fset_other by exact Hne. exact Hp.
-        - intros Hb. apply andb_true_iff in Hb. destruct Hb as [Hst _]. specialize (Hsub Hst).
+        - intros Hb. apply andb_true_iff in Hb. destruct Hb as [Hst Hb2]. specialize (Hsub Hst).
           apply (msg_subs_ok_store md S (fst acc) _ num Hsub). intros p Hp.
           apply msg_in_fset in Hp. destruct Hp as [->|Hp]; [|left; exact Hp].
           right. split; [reflexivity|]. cbn [snd]. intros x Hx. apply msg_in_map_put in Hx.
           destruct Hx as [->|Hx]; [right|left; exact Hx].
           intros fd' t Hf' Hk'. rewrite Hf in Hf'. inversion Hf'; subst fd'.
-          cbn [msg_check_elem]. apply (proj2 Hwf).
-          exact (wf_map ni md Hmdwf fd kk ku vd t (msg_find_field_in _ _ _ Hf) Hc Hk'). }
+          cbn [msg_check_elem]. exact (Hchk Hb2 t Hk'). }
       all: assert (Hnm : forall kk ku vd, f_card fd <> CMap kk ku vd) by (intros; rewrite Hc; discriminate).
       all: rewrite (msg_step_nm_eq _ _ _ _ _ fd Hf Hnm) in Hdm; rewrite (msg_istep_nm_eq _ _ _ _ fd Hf Hnm) in Him.
       all: eapply msg_nm_sync; eassumption.
@@ -898,14 +1066,46 @@ Section Flag2.
   Notation dm := (msg_decode_msg false S).
   Notation im := (msg_init_msg S ni).
 
+  Lemma msg_keeps_trans md a b c : msg_keeps md a b -> msg_keeps md b c -> msg_keeps md a c.
+  Proof. intros H1 H2 h fdh Hf Hr Hp. exact (H2 h fdh Hf Hr (H1 h fdh Hf Hr Hp)). Qed.
+
+  Lemma msg_dm_keeps d tid md grp :
+    nth_error S tid = Some md -> msg_md_wf ni md ->
+    forall g bs acc acc' rest,
+      dm (Datatypes.S d) tid grp g bs acc = DOk (acc', rest) -> msg_keeps md (fst acc) (fst acc').
+  Proof.
+    intros Hmd Hmdwf. induction g as [|x g IH]; intros bs acc acc' rest Hdm.
+    - cbn [msg_decode_msg] in Hdm. rewrite Hmd in Hdm. discriminate.
+    - rewrite (msg_dm_unfold false S d tid grp md x g bs acc Hmd) in Hdm.
+      destruct bs as [|b0 bs0].
+      + destruct (grp =? 0); [|discriminate]. inversion Hdm; subst. intros h fdh _ _ H. exact H.
+      + destruct (dec_tag (b0 :: bs0)) as [[[num typ] r]|e]; [|discriminate].
+        destruct (msg_max_num <? num); [discriminate|].
+        destruct ((typ =? 4) && negb false).
+        * destruct (num =? grp); [|discriminate]. inversion Hdm; subst. intros h fdh _ _ H. exact H.
+        * cbv zeta in Hdm.
+          destruct (msg_step false md (dm d) (msg_dsub2 false S d) (enc_tag num typ) num typ r acc) as [[acc1 r1]|e] eqn:E1; [|discriminate].
+          eapply msg_keeps_trans; [|exact (IH _ _ _ _ Hdm)].
+          eapply (msg_step_keeps S ni); eassumption.
+  Qed.
+
+  Lemma msg_dm_keeps_all d t mdt :
+    nth_error S t = Some mdt -> msg_md_wf ni mdt ->
+    forall grp g bs acc acc' rest, dm d t grp g bs acc = DOk (acc', rest) -> msg_keeps mdt (fst acc) (fst acc').
+  Proof.
+    intros Hm Hw grp g bs acc acc' rest H. destruct d as [|d]; [cbn [msg_decode_msg] in H; discriminate|].
+    exact (msg_dm_keeps d t mdt grp Hm Hw g bs acc acc' rest H).
+  Qed.
+
   Lemma msg_loop_sync d tid md grp :
     nth_error S tid = Some md -> msg_md_wf ni md -> msg_flag_stmt S ni d ->
+    (forall d1, d = Datatypes.S d1 -> msg_flag_stmt S ni d1) ->
     forall g g2 bs acc st acc' rest st' rest2,
       dm (Datatypes.S d) tid grp g bs acc = DOk (acc', rest) ->
       msg_iloop (msg_istep ni md (im d) (msg_isub2 S ni d)) grp g2 bs st = DOk (st', rest2) ->
       rest2 = rest /\ (msg_inv S md (fst acc) st -> msg_inv S md (fst acc') st').
   Proof.
-    intros Hmd Hmdwf IHd. induction g as [|x g IH]; intros g2 bs acc st acc' rest st' rest2 Hdm Him.
+    intros Hmd Hmdwf IHd IHd1. induction g as [|x g IH]; intros g2 bs acc st acc' rest st' rest2 Hdm Him.
     - cbn [msg_decode_msg] in Hdm. rewrite Hmd in Hdm. discriminate.
     - destruct g2 as [|x2 g2]; [discriminate|].
       rewrite (msg_dm_unfold false S d tid grp md x g bs acc Hmd) in Hdm. cbn [msg_iloop] in Him.
@@ -920,22 +1120,28 @@ Section Flag2.
         * cbv zeta in Hdm.
           destruct (msg_step false md (dm d) (msg_dsub2 false S d) (enc_tag num typ) num typ r acc) as [[acc1 r1]|e] eqn:E1; [|discriminate].
           destruct (msg_istep ni md (im d) (msg_isub2 S ni d) num typ r st) as [[st1 r1']|e] eqn:E2; [|discriminate].
-          destruct (msg_step_sync S ni Hwf d md Hmdwf IHd _ _ _ _ _ _ _ _ _ _ E1 E2) as [-> Hinv1].
+          destruct (msg_step_sync S ni Hwf d md Hmdwf tid Hmd IHd IHd1
+                      (fun d1 t mdt _ Hm Hw grp0 g0 bs1 acc0 acc0' rest0 H0 => msg_dm_keeps_all d1 t mdt Hm Hw grp0 g0 bs1 acc0 acc0' rest0 H0)
+                      _ _ _ _ _ _ _ _ _ _ E1 E2) as [-> Hinv1].
           destruct (IH _ _ _ _ _ _ _ _ Hdm Him) as [Hr Hinv2]. split; [exact Hr|].
           intros H. exact (Hinv2 (Hinv1 H)).
   Qed.
 
-  Theorem msg_flag_all : forall d, msg_flag_stmt S ni d.
+  Theorem msg_flag_all_le : forall d k, (k <= d)%nat -> msg_flag_stmt S ni k.
   Proof.
-    induction d as [|d IHd]; intros tid grp g bs acc acc' rest g2 f rest2 Hdm Him.
-    - cbn [msg_decode_msg] in Hdm. discriminate.
-    - cbn [msg_init_msg] in Him. destruct (nth_error S tid) as [md|] eqn:Hmd.
+    induction d as [|d IHall]; intros k Hk tid grp g bs acc acc' rest g2 f rest2 Hdm Him.
+    - assert (k = O) as -> by lia. cbn [msg_decode_msg] in Hdm. discriminate.
+    - destruct (Nat.eq_dec k (Datatypes.S d)) as [->|Hne];
+        [|exact (IHall k ltac:(lia) tid grp g bs acc acc' rest g2 f rest2 Hdm Him)].
+      pose proof (IHall d (Nat.le_refl d)) as IHd.
+      assert (IHd1 : forall d1, d = Datatypes.S d1 -> msg_flag_stmt S ni d1) by (intros d1 Hd1; apply IHall; lia).
+      cbn [msg_init_msg] in Him. destruct (nth_error S tid) as [md|] eqn:Hmd.
       2:{ cbn [msg_decode_msg] in Hdm. rewrite Hmd in Hdm. discriminate. }
       change (match d with O => None | Datatypes.S d1 => Some (im d1) end) with (msg_isub2 S ni d) in Him.
       destruct (msg_iloop (msg_istep ni md (im d) (msg_isub2 S ni d)) grp g2 bs (0, true)) as [[st rest2']|e] eqn:El; [|discriminate].
       inversion Him; subst f rest2'. clear Him.
       pose proof (proj1 Hwf _ _ Hmd) as Hmdwf.
-      destruct (msg_loop_sync d tid md grp Hmd Hmdwf IHd g g2 bs acc (0, true) acc' rest st rest2 Hdm El) as [-> Hinv].
+      destruct (msg_loop_sync d tid md grp Hmd Hmdwf IHd IHd1 g g2 bs acc (0, true) acc' rest st rest2 Hdm El) as [-> Hinv].
       split; [reflexivity|]. intros Hfin Hsubs.
       rewrite (msg_nth_error_nth S tid md Hmd) in Hsubs.
       assert (Hinv0 : msg_inv S md (fst acc) (0, true)).
@@ -954,6 +1160,8 @@ Section Flag2.
                                     (wf_uniq ni md Hmdwf) Hmask Hpc fd Hin Hx Hr).
       + apply forallb_forall. intros p Hp. apply msg_elems_ok_chunk. exact (Hsub Hok p Hp).
   Qed.
+  Theorem msg_flag_all : forall d, msg_flag_stmt S ni d.
+  Proof. intros d. exact (msg_flag_all_le d d (Nat.le_refl d)). Qed.
 End Flag2.
 
 (* the fast path never marks a partial message as initialized (restriction [maps]) *)
@@ -1048,19 +1256,24 @@ Proof.
   exists ex_fa1, (fun _ => true), [n2b 10; n2b 0]. eexists. vm_compute. split; reflexivity.
 Qed.
 
-(* non-vacuity of msg_init_wf: TestRequiredForeign without its map *)
+(* non-vacuity of msg_init_wf: TestRequiredForeign (singular, repeated, map value and oneof member of
+   a message with a required field) *)
 Definition ex_wf : schema :=
   [[mkF 1 (KMsg 1) COpt None false false false; mkF 2 (KMsg 1) CRep None false false false;
+    mkF 3 (KMsg 1) (CMap SkInt32 false 0) None false false false;
     mkF 4 (KMsg 1) COpt (Some 0) false false false]; ex_req].
 Lemma ex_wf_ok : msg_init_wf ex_wf (fun _ => true).
 Proof.
-  split; [|intros tid v H; discriminate].
-  intros tid md Hmd. destruct tid as [|[|tid]]; cbn in Hmd; [| |destruct tid; discriminate];
-    inversion Hmd; subst md; constructor.
-  - intros fd [<-|[<-|[<-|[]]]]; reflexivity.
-  - intros fd [<-|[<-|[<-|[]]]] H; discriminate.
-  - intros fd kk ku vd t [<-|[<-|[<-|[]]]] H; discriminate.
-  - intros fd [<-|[]]; reflexivity.
-  - intros fd [<-|[]] _. split; reflexivity.
-  - intros fd kk ku vd t [<-|[]] H; discriminate.
+  split; [|split; [intros tid v H; discriminate|]].
+  - intros tid md Hmd. destruct tid as [|[|tid]]; cbn in Hmd; [| |destruct tid; discriminate];
+      inversion Hmd; subst md; constructor.
+    + intros fd [<-|[<-|[<-|[<-|[]]]]]; reflexivity.
+    + intros fd [<-|[<-|[<-|[<-|[]]]]] H; discriminate.
+    + intros fd [<-|[]]; reflexivity.
+    + intros fd [<-|[]] _. split; reflexivity.
+  - intros tid md fd kk ku vd t Hmd Hin Hc Hk. right.
+    destruct tid as [|[|tid]]; cbn in Hmd; [| |destruct tid; discriminate]; inversion Hmd; subst md.
+    + destruct Hin as [<-|[<-|[<-|[<-|[]]]]]; try discriminate.
+      destruct Hk as [Hk|Hk]; inversion Hk; subst t. split; reflexivity.
+    + destruct Hin as [<-|[]]. discriminate.
 Qed.
